@@ -62,6 +62,10 @@ type Interp struct {
 
 	run *runState
 	exp *Explorer
+	keyCache map[*ssa.Function]string
+	knutFn   map[*ssa.Function]bool
+	curRange *ssa.Range
+	MapSites map[*ssa.Range]int
 	curFrame *frame
 
 	Steps    int64
@@ -238,6 +242,21 @@ func (in *Interp) ensureInit(pkg *ssa.Package) {
 }
 
 func (in *Interp) global(g *ssa.Global) *value {
+	if g.Pkg != nil && g.Pkg.Pkg.Path() == "os" && (g.Name() == "Stdout" || g.Name() == "Stderr") && in.run != nil {
+		// the process's standard streams are files of the file-system model
+		key := "/dev/" + strings.ToLower(g.Name())
+		st := in.fs()
+		if st.std == nil {
+			st.std = map[string]*value{}
+		}
+		if c, ok := st.std[key]; ok {
+			return c
+		}
+		st.files[key] = &fsFile{exists: true}
+		var cell value = fileValue(&fsHandle{path: key})
+		st.std[key] = &cell
+		return &cell
+	}
 	if p, ok := in.globals[g]; ok {
 		return p
 	}
@@ -383,7 +402,16 @@ func fnKey(fn *ssa.Function) string {
 
 func (in *Interp) callSSA(caller *frame, callpos token.Pos, fn *ssa.Function, args []value, env []value) value {
 	if fn.Parent() == nil {
-		key := fnKey(fn)
+		key, ok := in.keyCache[fn]
+		if !ok {
+			key = fnKey(fn)
+			if in.keyCache == nil {
+				in.keyCache = map[*ssa.Function]string{}
+				in.knutFn = map[*ssa.Function]bool{}
+			}
+			in.keyCache[fn] = key
+			in.knutFn[fn] = fn.Pkg != nil && strings.HasPrefix(fn.Pkg.Pkg.Path(), "github.com/sboehler/knut")
+		}
 		if in.initing == 0 {
 			if ov, ok := in.overrides[key]; ok {
 				in.StubsHit["override:"+key] = true
@@ -406,7 +434,7 @@ func (in *Interp) callSSA(caller *frame, callpos token.Pos, fn *ssa.Function, ar
 		if fn.Blocks == nil {
 			panic(unsupported{"no code for function: " + fn.String()})
 		}
-		if pkg := fn.Pkg; pkg != nil && strings.HasPrefix(pkg.Pkg.Path(), "github.com/sboehler/knut") {
+		if in.knutFn[fn] && !in.FuncsHit[key] {
 			in.FuncsHit[key] = true
 		}
 	}
@@ -674,6 +702,7 @@ func (in *Interp) visitInstr(fr *frame, instr ssa.Instruction) continuation {
 		fr.env[instr] = newOmap()
 
 	case *ssa.Range:
+		in.curRange = instr
 		fr.env[instr] = in.rangeIter(fr, fr.get(instr.X), instr.X.Type())
 
 	case *ssa.Next:
@@ -1335,8 +1364,18 @@ func (in *Interp) rangeIter(fr *frame, x value, t types.Type) iter {
 					it.order = append(it.order, i)
 				}
 			}
-			if in.run != nil && in.run.mapOrder && len(it.order) > 1 && len(it.order) <= in.run.mapOrderMax {
-				it.order = in.permute(it.order)
+			if in.run != nil && len(it.order) > 1 {
+				switch {
+				case in.run.mapSite >= 0:
+					// site-selective: only the chosen range instruction, a bounded number of times
+					if site, ok := in.MapSites[in.curRange]; ok && site == in.run.mapSite && in.run.mapSiteBudget > 0 && len(it.order) <= in.run.mapOrderMax {
+						in.run.mapSiteBudget--
+						in.run.mapSiteHits++
+						it.order = in.permute(it.order)
+					}
+				case in.run.mapOrder && len(it.order) <= in.run.mapOrderMax:
+					it.order = in.permute(it.order)
+				}
 			}
 		}
 		return it
